@@ -6,6 +6,8 @@ import (
 	"fmt"
 	"math/rand"
 	"strings"
+
+	"github.com/onheap/eval"
 )
 
 func init() {
@@ -108,6 +110,7 @@ func c02Run(w *W, idx int) {
 		}
 		bs = append(bs, Binding{Vals: map[string]interface{}{"i0": int64(3), "b0": true, "b1": true}})
 		c02Program(w, r, "guard", tree, bs, true, true)
+		c02OneShot(w, r, tree, bs)
 	default:
 		// skeleton and two-leaf weighted up
 		names := []string{"skeleton", "two-leaf", "skeleton", "mixed", "two-leaf", "failing", "wide-deep", "mixed", "skeleton"}
@@ -314,4 +317,38 @@ func c02Floors(m *Merged, tier string) []string {
 		unmet = append(unmet, "fewer than 1000 strict-success cases")
 	}
 	return unmet
+}
+
+// c02OneShot: the option-less helper eval.Eval(source, values) compiles and evaluates in one call. The same body is
+// evaluated without a header, then under directive headers that switch optimizations off (and the other way round):
+// every call honours the directives of its own source, whatever was evaluated before.
+func c02OneShot(w *W, r *rand.Rand, tree *Node, bs []Binding) {
+	body := tree.Prefix()
+	headers := []string{"", ";;;; reordering: false\n", ";;;; optimize: false\n", ";; a guard\n;;;; reordering:false\n", ";;;; optimize:false, constant_folding:true\n"}
+	order := r.Perm(len(headers))
+	if r.Intn(2) == 0 {
+		// the plain body first: the order of the default optimizations is what gets compiled first
+		for k, x := range order {
+			if x == 0 {
+				order[0], order[k] = order[k], order[0]
+			}
+		}
+	}
+	for _, b := range bs {
+		want, wantErr := refEnv(b).Eval(tree)
+		for _, hi := range order {
+			src := headers[hi] + body
+			o := guard(func() (eval.Value, error) { return eval.Eval(src, b.Vals) })
+			w.Evals++
+			w.Inc("one_shot_eval_calls")
+			if o.Panic != nil {
+				w.Fail("eval-panic/"+normPanic(o.Panic)+"@"+panicSite(o.Stack), "eval.Eval panicked: %v\nsource: %q", o.Panic, src)
+				return
+			}
+			if hi != 0 && wantErr == nil && (o.Err != nil || !valEq(o.V, want)) {
+				w.Fail("reordering-off-differs-from-unoptimized/one-shot", "eval.Eval(source, values) with a header that switches Reordering off gives %s, plain left-to-right evaluation gives %s (earlier calls evaluated the same body under other headers)\nsource: %q\nbinding: %s", o, valText(want), src, b)
+				return
+			}
+		}
+	}
 }
